@@ -650,3 +650,80 @@ Proof.
   try (apply getnext_refused in E; subst; reflexivity);
   try (cbn in Hr; contradiction); try reflexivity.
 Qed.
+
+(* ---------------------------------------------------------------- forward walking *)
+Lemma skipn_nth {A} : forall (l : list A) k b, nth_error l k = Some b -> skipn k l = b :: skipn (S k) l.
+Proof.
+  induction l as [|a l IH]; intros k b H; destruct k; try discriminate.
+  - cbn in H. inversion H; subst. reflexivity.
+  - cbn in H. cbn [skipn]. rewrite (IH _ _ H). reflexivity.
+Qed.
+Lemma srun_walk_at nm : forall j l m k, length l = (k + j)%nat ->
+  srun (mkS l m (CAt k)) (repeat (GetNext nm) (S j)) = (mkS l m (CAt (k + j)), map OData (skipn k l) ++ [OFail ENOENT]).
+Proof.
+  induction j as [|j IH]; intros l m k Hl.
+  - cbn [repeat srun sstep s_next scu sl smax].
+    assert (E : nth_error l k = None) by (apply nth_error_None; lia). rewrite E.
+    rewrite skipn_all2 by lia. rewrite Nat.add_0_r. reflexivity.
+  - change (repeat (GetNext nm) (S (S j))) with (GetNext nm :: repeat (GetNext nm) (S j)).
+    cbn [srun sstep s_next scu sl smax].
+    destruct (nth_error l k) as [b|] eqn:E; [|apply nth_error_None in E; lia].
+    rewrite (IH l m (S k) ltac:(lia)).
+    rewrite (skipn_nth _ _ _ E). cbn [map app]. replace (S k + j)%nat with (k + S j)%nat by lia. reflexivity.
+Qed.
+Lemma srun_walk nm l m c :
+  srun (mkS l m c) (CurReset :: repeat (GetNext nm) (S (length l))) =
+  (mkS l m (match l with [] => CFresh | _ => CAt (length l) end), OOk :: map OData l ++ [OFail ENOENT]).
+Proof.
+  cbn [srun sstep sl smax]. destruct l as [|b r].
+  - reflexivity.
+  - change (repeat (GetNext nm) (S (length (b :: r)))) with (GetNext nm :: repeat (GetNext nm) (S (length r))).
+    cbn [srun sstep s_next scu sl smax].
+    rewrite (srun_walk_at nm (length r) (b :: r) m 1%nat ltac:(cbn [length]; lia)). cbn [skipn map app]. replace (1 + length r)%nat with (S (length r)) by lia. reflexivity.
+Qed.
+Lemma sl_next st : sl (fst (s_next st)) = sl st.
+Proof. unfold s_next. destruct (scu st); [destruct (sl st) eqn:E|destruct (nth_error (sl st) k)|]; cbn [fst sl]; auto. Qed.
+Lemma bounded_nexts nm : forall n st, len (sl st) < 2^31 -> bounded st (repeat (GetNext nm) n).
+Proof.
+  induction n as [|n IH]; intros st H; cbn [repeat bounded]; [exact Logic.I|]. split; [exact H|].
+  apply IH. cbn [sstep]. rewrite sl_next. exact H.
+Qed.
+Lemma wf_nexts nm n : Forall wf_op (repeat (GetNext nm) n).
+Proof. apply Forall_forall. intros o Ho. apply repeat_spec in Ho. subst. exact Logic.I. Qed.
+
+Theorem walk_all s st nm : Inv (fst s) -> R s st -> len (sl st) < 2^31 ->
+  exists s', run s (CurReset :: repeat (GetNext nm) (S (length (sl st)))) = Ok (s', OOk :: map OData (sl st) ++ [OFail ENOENT]) /\
+             Inv (fst s') /\ datas (items (fst s')) = sl st.
+Proof.
+  intros I HR Hn. destruct st as [l m c]. cbn [sl] in *.
+  pose proof (srun_walk nm l m c) as Hs.
+  destruct (run_refines (CurReset :: repeat (GetNext nm) (S (length l))) s (mkS l m c) I HR) as (s' & Hr & I' & (Hd & _)).
+  - constructor; [exact Logic.I|apply wf_nexts].
+  - cbn [bounded]. split; [exact Hn|]. apply bounded_nexts. exact Hn.
+  - unfold defined. rewrite Hs. cbn [snd]. intros [H|H]; [discriminate|]. apply in_app_or in H as [H|H].
+    + apply in_map_iff in H as (y & Hy & _). discriminate.
+    + destruct H as [H|[]]. discriminate.
+  - rewrite Hs in Hr, Hd. cbn [fst snd sl] in *. exists s'. auto.
+Qed.
+
+Lemma run_app : forall h1 h2 s,
+  run s (h1 ++ h2) = bind (run s h1) (fun p => bind (run (fst p) h2) (fun q => Ok (fst q, snd p ++ snd q))).
+Proof.
+  induction h1 as [|o r IH]; intros h2 s; cbn [app run bind fst snd].
+  - destruct (run s h2) as [[s2 o2]| |]; reflexivity.
+  - destruct (step s o) as [[s1 ob]| |]; cbn [bind fst snd]; try reflexivity. rewrite IH.
+    destruct (run s1 r) as [[s2 o2]| |]; cbn [bind fst snd]; try reflexivity.
+    destruct (run s2 h2) as [[s3 o3]| |]; reflexivity.
+Qed.
+
+(* after any history, a fresh walk returns exactly the current contents, front to back, then reports the end *)
+Theorem walk_after_history h nm : Forall wf_op h -> bounded sinit h -> defined sinit h ->
+  len (sl (fst (srun sinit h))) < 2^31 ->
+  let l := sl (fst (srun sinit h)) in
+  exists s', run init (h ++ CurReset :: repeat (GetNext nm) (S (length l))) =
+             Ok (s', snd (srun sinit h) ++ OOk :: map OData l ++ [OFail ENOENT]).
+Proof.
+  intros Hw Hb Hd Hn l. destruct (run_refines h init sinit Inv_init R_init Hw Hb Hd) as (s & Hr & I & HR).
+  destruct (walk_all s (fst (srun sinit h)) nm I HR Hn) as (s' & Hr' & _).
+  rewrite run_app, Hr. cbn [bind fst snd]. fold l in Hr'. rewrite Hr'. cbn [bind fst snd]. exists s'. reflexivity.
+Qed.
